@@ -12,6 +12,7 @@ import Driver.Record
 import Driver.X509
 import Driver.SM2Model
 import Driver.X509Sign
+import Driver.BER
 open Gmsm
 
 def dispatch (toks : List String) : String :=
@@ -22,6 +23,9 @@ def dispatch (toks : List String) : String :=
     | some r => r
     | none =>
     match Driver.x509signDispatch toks with
+    | some r => r
+    | none =>
+    match Driver.berDispatch toks with
     | some r => r
     | none =>
     match toks with
